@@ -7,6 +7,7 @@ import PMV.Proofs.Numbers
 import PMV.Proofs.LayoutTable
 import PMV.Proofs.LayoutPlain
 import PMV.Proofs.LayoutTidy
+import PMV.Proofs.LayoutIndent
 /-
   C02 — Printed source re-parses to exactly the same syntax tree.
   Proved here, for every well-formed expression tree of the modelled AST (unbounded depth):
@@ -88,6 +89,13 @@ theorem layout_tidy (m : Module) (hok : Spec.Layout.okL Generated.precTable Gene
     Spec.Layout.noAdj (Spec.Layout.emitModule Generated.precTable Generated.stmtTable m) = true :=
   ⟨Spec.Layout.module_tidy _ _ m hok hne, Spec.Layout.tidy_noAdj (Spec.Layout.module_tidy _ _ m hok hne)⟩
 
+/-- T02.4c (indentation discipline): reading the lines of the specified layout in order, a line is deeper than the one before
+    it only by exactly one level and only right after a colon — when CPython's tokenizer emits INDENT and the grammar expects a
+    block (shallower lines are always fine with tab-count depths).  For every module, no side condition. -/
+theorem layout_indentation (m : Module) :
+    (Spec.Layout.indRun (0, none) (Spec.Layout.emitModule Generated.precTable Generated.stmtTable m)).isSome = true :=
+  Spec.Layout.module_indent _ _ m
+
 /-- T02.5 (characters): when moreover no token text ends in a character that `newline` strips or is empty (`textOK`),
     the printed text is the concatenation of the characters of a list of layout tokens (a token with the space the spacing
     rule puts before it; a line break followed by `depth` tabs; a `;`) which, spacing forgotten, is the specified layout. -/
@@ -128,6 +136,8 @@ def layoutWitness : Module := ⟨[
 
 example : Spec.Layout.okL Generated.precTable Generated.stmtTable layoutWitness.body = true := by decide +kernel
 example : Spec.Layout.plainL Generated.precTable layoutWitness.body = true := by decide +kernel
+-- the discipline is not vacuous: a deeper line without a colon before it is rejected
+example : Spec.Layout.indRun (0, none) [.t (.ident "a"), .nl 1, .t (.ident "b")] = none := by decide
 example : (moduleToks Generated.precTable Generated.stmtTable layoutWitness).all Spec.Layout.textOK = true := by decide +kernel
 example : Token.render Generated.spacing (moduleToks Generated.precTable Generated.stmtTable layoutWitness)
     = "a\nif b:c;pass\nelif d:\n\twhile e:break\n\telse:continue;pass\nelse:f\ng\nh" := by decide +kernel
